@@ -39,7 +39,7 @@ def main():
     ap.add_argument("--checks", default="")
     ap.add_argument("--needs", default="")
     a = ap.parse_args()
-    out = Path(a.out)
+    out = Path(a.out).resolve()
     patch = out / "patch.diff"
     demo = out / "demo.py"
     global REPO
